@@ -793,6 +793,7 @@ bool Annotator::assignAllIds()
 {
     auto model = pFunc()->mModel.lock();
     if (model != nullptr) {
+        pFunc()->update();
         size_t initialSize = pFunc()->idCount();
         pFunc()->doSetAllAutomaticIds();
         return pFunc()->idCount() > initialSize;
@@ -821,6 +822,7 @@ bool Annotator::assignIds(CellmlElementType type)
         return false;
     }
 
+    pFunc()->update();
     size_t initialSize = pFunc()->idCount();
 
     switch (type) {
